@@ -270,6 +270,8 @@ func mfRenderDesc(c mfCase) (name, text string, files map[string]string) {
 		d.rep("  - name: auth_req\n", "  - name: auth_req\n    y: 1\n", 1)
 	case cls == "neg_weight":
 		d.rep(pick("weight           = 50", "weight: 50"), pick("weight           = -50", "weight: -50"), 1)
+	case cls == "huge_weight":
+		d.rep(pick("weight           = 50", "weight: 50"), pick("weight           = 4611686018427387904", "weight: 4611686018427387904"), 1)
 	case cls == "var_randint_eq":
 		d.rep(varOld, varNew("randInt(5,5)"), 1)
 	case cls == "var_randint_ovf":
